@@ -83,8 +83,111 @@ static void* raiser(void* p) {
   }
   return NULL;
 }
+/* ---- scripted stale-snapshot scenario ("even when a node is popped, reused and pushed again while another
+ * thread still holds a stale snapshot") ----
+ * B and A wait; raiser R1 takes its snapshot (head = A's node, next = B's node) and is preempted right before
+ * its double-word CAS; meanwhile A and B are released, a raise finds nobody and stays pending, C accepts it and
+ * waits again, A waits again with the same node. Then R1 continues. Whatever the counter did in between, R1's
+ * CAS must fail and its raise must be retried on the current list. Afterwards raises continue until A and C
+ * have returned. Nobody is reclaimed before the end. */
+static volatile int sc_b_woken, sc_a_woken, sc_a_go2, sc_a_done, sc_c_go, sc_c_accepted, sc_c_done, sc_r1_held, sc_r1_release, sc_r1_done, sc_finish;
+static NS int sc_waiters(void) { /* number of fibers parked on the signal */
+  mpsc_fifo_node_t* h = ms.data.head;
+  int n = 0;
+  while (h && h != FIBER_MULTI_SIGNAL_RAISED && n < 8) {
+    n++;
+    h = h->next;
+  }
+  return n;
+}
+static NS void sc_progress(void) { sim_progress(); }
+static void* sc_b(void* p) {
+  (void)p;
+  fiber_multi_signal_wait(&ms);
+  sc_b_woken = 1;
+  sc_progress();
+  while (!sc_finish) fiber_yield(); /* stays alive, is not waiting on anything */
+  return NULL;
+}
+static void* sc_a(void* p) {
+  (void)p;
+  while (sc_waiters() < 1) fiber_yield(); /* B first, so that the list reads A -> B */
+  fiber_multi_signal_wait(&ms);
+  sc_a_woken = 1;
+  sc_progress();
+  while (!sc_a_go2) fiber_yield();
+  fiber_multi_signal_wait(&ms); /* the same fiber, the same list node, pushed again */
+  sc_a_done = 1;
+  sc_progress();
+  while (!sc_finish) fiber_yield();
+  return NULL;
+}
+static void* sc_c(void* p) {
+  (void)p;
+  while (!sc_c_go) fiber_yield();
+  fiber_multi_signal_wait(&ms); /* accepts the pending raise at once */
+  sc_c_accepted = 1;
+  sc_progress();
+  fiber_multi_signal_wait(&ms);
+  sc_c_done = 1;
+  sc_progress();
+  while (!sc_finish) fiber_yield();
+  return NULL;
+}
+static void* sc_r1(void* p) {
+  (void)p;
+  while (sc_waiters() < 2) fiber_yield();
+  sim_hold_before_dwcas(&sc_r1_held, &sc_r1_release, 60000);
+  fiber_multi_signal_raise(&ms);
+  sim_hold_before_dwcas(NULL, NULL, 0);
+  sc_r1_done = 1;
+  sc_progress();
+  return NULL;
+}
+static void run_script(sim_cfg_t c) {
+  sim_scenario("msignal-stale-snapshot-script");
+  sim_describe("threads=%d scripted stale snapshot: B,A wait; R1 held before its CAS; A,B released; pending raise; C accepts and waits; A waits again; R1 continues preempt=1/%d", c.threads,
+               c.preempt_inv);
+  sim_nontrivial();
+  sim_set_quiet_ns(400 * 5000000ull);
+  sim_fiber_mode();
+  fiber_manager_init(c.threads);
+  fiber_multi_signal_init(&ms);
+  fiber_t* f[4];
+  f[0] = fiber_create(STK, sc_b, NULL);
+  f[1] = fiber_create(STK, sc_a, NULL);
+  f[2] = fiber_create(STK, sc_c, NULL);
+  f[3] = fiber_create(STK, sc_r1, NULL);
+  /* the driver (this fiber). Every wait below is bounded: if R1 gets away early (its hold times out) the
+   * choreography is off but everything still terminates, because raises continue until A and C are through */
+#define SC_UNTIL(cond)                                   \
+  for (int g_ = 0; !(cond) && g_ < 4000; g_++) fiber_yield()
+  SC_UNTIL(sc_r1_held || sc_r1_done);
+  fiber_multi_signal_raise(&ms); /* releases A (head) */
+  fiber_multi_signal_raise(&ms); /* releases B */
+  SC_UNTIL(sc_a_woken && sc_b_woken);
+  fiber_multi_signal_raise(&ms); /* nobody waits: stays pending */
+  sc_c_go = 1;
+  SC_UNTIL(sc_c_done || (sc_c_accepted && sc_waiters() >= 1)); /* C accepted it and waits again */
+  sc_a_go2 = 1;
+  SC_UNTIL(sc_a_done || sc_c_done || sc_waiters() >= 2); /* A waits again: its node is the head once more */
+  sc_r1_release = 1;
+  while (!sc_r1_done) fiber_yield();
+  /* R1's raise and further ones: until both remaining waiters have returned (surplus raises stay pending) */
+  while (!(sc_a_done && sc_c_done)) {
+    fiber_multi_signal_raise(&ms);
+    fiber_yield();
+  }
+  sc_finish = 1;
+  for (int i = 0; i < 4; i++) fiber_join(f[i], NULL);
+  h_fiber_end();
+}
 void h_run(void) {
   sim_cfg_t c = sim_config(1, 4, 0, FBIT(F_STALL));
+  if (c.threads >= 2 && wl_pct(12)) {
+    run_script(c);
+    return;
+  }
   strict_mode = wl_pct(25);
   nw = wl_int(1, MAXW);
   nr = wl_int(1, MAXR);
